@@ -771,6 +771,11 @@ class ScipyOptimizeDriver(Driver):
         if meta['equals'] is not None:
             return grad[grad_idx, :]
 
+        if self.options['optimizer'] in _supports_new_style and _use_new_style:
+            # new-style constraints get the unmodified value from _con_val_func, so the
+            # gradient must not change sign either.
+            return grad[grad_idx, :]
+
         # Note, scipy defines constraints to be satisfied when positive,
         # which is the opposite of OpenMDAO.
         lower = meta['lower']
